@@ -93,13 +93,84 @@ namespace c54 {
   }
 
   /*!
+   * \return true if the input asks for a huge number of time steps (`@Times {0, 1 in 99999999}`): the
+   * parser builds the whole array, time and memory are proportional to the count; this is work requested
+   * by the input, not a hang (the out-of-process engine still runs such inputs)
+   */
+  inline bool hugeSubdivision(const std::string& s) {
+    for (auto p = s.find("in"); p != std::string::npos; p = s.find("in", p + 1)) {
+      if (p > 0 && (std::isalnum(static_cast<unsigned char>(s[p - 1])) || s[p - 1] == '_')) continue;
+      auto q = p + 2;
+      if (q >= s.size() || !std::isspace(static_cast<unsigned char>(s[q]))) continue;
+      while (q < s.size() && std::isspace(static_cast<unsigned char>(s[q]))) ++q;
+      // a negative count is read as an unsigned int: `in -1` means 4294967295 intervals
+      if (q < s.size() && s[q] == '-') return true;
+      std::size_t nd = 0;
+      bool expo = false;
+      while (q < s.size() && (std::isdigit(static_cast<unsigned char>(s[q])) || s[q] == '.' || s[q] == 'e' || s[q] == 'E' || s[q] == '+')) {
+        if (std::isdigit(static_cast<unsigned char>(s[q]))) ++nd;
+        if ((s[q] == 'e' || s[q] == 'E') && nd > 0) expo = true;
+        ++q;
+      }
+      if (nd >= 6 || expo) return true;
+    }
+    return false;
+  }
+
+  //! \return true if a `@Description {` block is still opened at the end of the input (plain brace counting)
+  inline bool unterminatedDescription(const std::string& s) {
+    const auto n = s.size();
+    for (auto p = s.find("@Description"); p != std::string::npos; p = s.find("@Description", p + 1)) {
+      auto q = p + 12;
+      while (q < n && std::isspace(static_cast<unsigned char>(s[q]))) ++q;
+      if (q >= n || s[q] != '{') continue;
+      int depth = 0;
+      auto i = q;
+      while (i < n) {
+        const char c = s[i];
+        if (c == '/' && i + 1 < n && s[i + 1] == '/') {
+          while (i < n && s[i] != '\n') ++i;
+          continue;
+        }
+        if (c == '/' && i + 1 < n && s[i + 1] == '*') {
+          i += 2;
+          while (i + 1 < n && !(s[i] == '*' && s[i + 1] == '/')) ++i;
+          i = (i + 1 < n) ? i + 2 : n;
+          continue;
+        }
+        if (c == '"' || c == '\'') {
+          auto j = i + 1;
+          while (j < n && s[j] != c && s[j] != '\n') {
+            if (s[j] == '\\') ++j;
+            ++j;
+          }
+          i = j < n ? j + 1 : n;
+          continue;
+        }
+        if (c == '{') ++depth;
+        if (c == '}') {
+          --depth;
+          if (depth == 0) break;
+        }
+        ++i;
+      }
+      if (depth > 0) return true;
+    }
+    return false;
+  }
+
+  /*!
    * \return the key of the known finding the input belongs to, nullptr otherwise
+   *
+   * C54.read_past_end.handleDescription_unterminated: a `@Description {` block which is not closed before the
+   * end of the file: the loop of SchemeParserBase::handleDescription tests `p->value` before `p != end`.
    *
    * C54.heap-buffer-overflow.treatKeyword_at_end_of_file: the last token of the file (comments removed) is
    * a `@Keyword`: {SchemeParserBase,SingleStructureSchemeParser,MTestParser,PipeTestParser}::treatKeyword do
    * `++p; const auto line = p->line;` without checking p against the end of the tokens.
    */
   inline const char* knownClass(const std::string& s) {
+    if (unterminatedDescription(s)) return "C54.read_past_end.handleDescription_unterminated";
     // last token, comments removed
     std::string last;
     std::string cur;
